@@ -88,7 +88,7 @@ Verdict(o) ==
      ELSE IF Permitted(c, o.out)
        THEN [id |-> o.id, ok |-> TRUE, sig |-> "", why |-> "outcome", want |-> NoWant]
      ELSE LET w == Witness(c)
-          IN IF ~WitnessOk(c)
+          IN IF ~WitnessOkW(c, w)
                THEN [id |-> o.id, ok |-> FALSE, sig |-> "malformed|witness-self-check", why |-> "malformed", want |-> NoWant]
                ELSE [id |-> o.id, ok |-> FALSE, why |-> "outcome", want |-> WitnessOutcome(w),
                      sig |-> "arith|" \o c.op \o "|" \o OpCls(c) \o "|" \o Situation(c, w) \o "|" \o Got(c, o.out, w)]
